@@ -60,7 +60,7 @@ def is_bound_step(n, self_: str) -> bool:
             return False
         conj = n.ast.test.values if isinstance(n.ast.test, ast.BoolOp) and isinstance(n.ast.test.op, ast.And) else [n.ast.test]
         allowed = {f'{self_}.max_history_size', f'{self_}.max_history_size is not None', f'len({self_}.event_history) > {self_}.max_history_size', f'{self_}.max_history_size < len({self_}.event_history)'}
-        return all(U(x) in allowed or _is_excess_test(x, n, self_) for x in conj)
+        return all(U(x) in allowed or _is_excess_test(x, n, self_) or _is_excess(x, self_) for x in conj)  # (`if <the excess, 0 without a bound>:` is `if len(H) > M:`)
     if n.kind == 'stmt':
         return bool(q.node_calls(n, 'cleanup_event_history')) and q.enclosing(n.ast, (ast.If,)) is None
     return False
@@ -276,6 +276,22 @@ def _check_eviction_order(c: Ctx, u: Unit, order: list, te, sl: ast.AST) -> None
         c.ok(where(u, sl), 'completed before started before pending, each run oldest-first')
 
 
+def _is_excess(e: ast.AST | None, self_: str, depth: int = 0) -> bool:
+    """len(history) − max_history_size, possibly under max(0, ..) and / or as the non-zero arm of a conditional expression whose other arm is 0."""
+    from sa.loops import lin
+
+    if e is None or depth > 4:
+        return False
+    if isinstance(e, ast.Call) and isinstance(e.func, ast.Name) and e.func.id == 'max' and len(e.args) == 2:
+        rest = [a for a in e.args if not (isinstance(a, ast.Constant) and a.value == 0)]
+        return len(rest) == 1 and _is_excess(rest[0], self_, depth + 1)
+    if isinstance(e, ast.IfExp):
+        arms = [a for a in (e.body, e.orelse) if not (isinstance(a, ast.Constant) and a.value == 0)]
+        return len(arms) == 1 and _is_excess(arms[0], self_, depth + 1)
+    l = lin(e, {})
+    return l is not None and {k: v for k, v in l.items() if v} == {f'len({self_}.event_history)': 1, f'{self_}.max_history_size': -1}
+
+
 def take_loop_design(c: Ctx, u: Unit, fn: ast.AST, self_: str) -> bool:
     """The bucket design, evaluated rather than matched: a dict of lists keyed by status is filled from the history (every event filed under its own status), the lists are sorted
     (in place, or when they are taken), and a loop over a literal order of statuses takes from each list a prefix bounded by what is still to remove, into one list of ids that is
@@ -304,6 +320,10 @@ def take_loop_design(c: Ctx, u: Unit, fn: ast.AST, self_: str) -> bool:
         if isinstance(e, ast.Call) and isinstance(e.func, ast.Name) and e.func.id == 'max' and len(e.args) == 2:
             rest = [a for a in e.args if not (isinstance(a, ast.Constant) and a.value == 0)]
             return len(rest) == 1 and excess_like(rest[0], depth + 1)
+        if isinstance(e, ast.IfExp):
+            # `0 if not M else <excess>`: nothing to remove without a bound (the function returns before the take loop when the count is 0)
+            arms = [a for a in (e.body, e.orelse) if not (isinstance(a, ast.Constant) and a.value == 0)]
+            return len(arms) == 1 and excess_like(arms[0], depth + 1)
         l = lin(e, {})
         return l is not None and {k: v for k, v in l.items() if v} == {f'len({Hh})': 1, M: -1}
 
@@ -689,19 +709,29 @@ def c13_2(c: Ctx) -> None:
     L_started, L_pending = lists['started'], lists['pending']
     # count
     cnt_defs = [n for n in own_nodes(fn) if isinstance(n, ast.Assign) and isinstance(n.targets[0], ast.Name) and isinstance(n.value, ast.BinOp) and isinstance(n.value.op, ast.Sub) and 'max_history_size' in U(n.value)]
-    if len(cnt_defs) != 1:
+    if not cnt_defs:
+        # the count may come guarded: `0 if not M else max(0, len(H) - M)` (the excess wherever there is something to evict)
+        guarded = [n for n in own_nodes(fn) if isinstance(n, ast.Assign) and isinstance(n.targets[0], ast.Name) and 'max_history_size' in U(n.value) and _is_excess(n.value, self_)]
+        if len(guarded) == 1:
+            cnt = guarded[0].targets[0].id
+            c.ok(where(u, guarded[0]), f'{cnt} = len(history) − max_history_size (0 where there is no bound or no excess)')
+            cnt_defs = guarded
+    if cnt_defs and not (isinstance(cnt_defs[0].value, ast.BinOp) and isinstance(cnt_defs[0].value.op, ast.Sub)):
+        pass
+    elif len(cnt_defs) != 1:
         c.fail(u, f'{len(cnt_defs)} definitions of the removal count', 'the number of events to evict is not computed as len(history) − max_history_size')
         return
     cnt = cnt_defs[0].targets[0].id
-    lhs = cnt_defs[0].value.left
-    lhs_txt = U(lhs)
-    if isinstance(lhs, ast.Name):
-        d0 = [n for n in own_nodes(fn) if isinstance(n, ast.Assign) and U(n.targets[0]) == lhs.id]
-        lhs_txt = U(d0[0].value) if d0 else lhs_txt
-    if lhs_txt == f'len({self_}.event_history)' and U(cnt_defs[0].value.right) == f'{self_}.max_history_size':
-        c.ok(where(u, cnt_defs[0]), f'{cnt} = len(history) − max_history_size')
-    else:
-        c.fail(u, f'{cnt} = {lhs_txt} - {U(cnt_defs[0].value.right)}', 'the number evicted is not exactly the excess over max_history_size (history stays above N, or in-flight events are evicted needlessly)', node=cnt_defs[0])
+    if isinstance(cnt_defs[0].value, ast.BinOp) and isinstance(cnt_defs[0].value.op, ast.Sub):
+        lhs = cnt_defs[0].value.left
+        lhs_txt = U(lhs)
+        if isinstance(lhs, ast.Name):
+            d0 = [n for n in own_nodes(fn) if isinstance(n, ast.Assign) and U(n.targets[0]) == lhs.id]
+            lhs_txt = U(d0[0].value) if d0 else lhs_txt
+        if lhs_txt == f'len({self_}.event_history)' and U(cnt_defs[0].value.right) == f'{self_}.max_history_size':
+            c.ok(where(u, cnt_defs[0]), f'{cnt} = len(history) − max_history_size')
+        else:
+            c.fail(u, f'{cnt} = {lhs_txt} - {U(cnt_defs[0].value.right)}', 'the number evicted is not exactly the excess over max_history_size (history stays above N, or in-flight events are evicted needlessly)', node=cnt_defs[0])
     # removal blocks in textual order
     rem_defs = [n for n in own_nodes(fn) if isinstance(n, (ast.Assign, ast.AnnAssign)) and isinstance(n.value, ast.List) and not n.value.elts]
     exts = sorted([n for n in own_nodes(fn) if isinstance(n, ast.Call) and call_name(n) == 'extend' and isinstance(n.func, ast.Attribute)], key=lambda n: n.lineno)
